@@ -41,6 +41,8 @@ META = {
             "FKM-Goodman amplitudes are compared with an independent geometric oracle; arbitrary five-segment diagrams are judged by the relations the property states; matrix transforms by cycle conservation per extra index level.", "3 C12"),
     "C13": ("exploration", "runtime monitoring: icontract snapshot/postcondition contract on Broadcaster.broadcast (key-lookup oracle, operands-unchanged also on exceptional exit) + end-to-end scalar-loop oracle",
             "Every broadcast call the workload makes, including the accessors internal ones, is judged by a contract: operands bitwise unchanged, identical result indices, every result row equals the original value for its key, no original row lost.", "3 C13"),
+    "C14": ("exploration", "runtime monitoring: conservation monitors (every cycle in exactly one class, totals under re-binning and combination) and identity/relation monitors on the real accessors",
+            "Accounting identities, histogram totals against an own classification, marginal consistency, and conservation/identity/composition of re-binning on irregular and degenerate binnings.", "3 C14"),
     "C03": ("exploration", "runtime monitoring: metamorphic relation monitors between executions (refinement, negation, "
             "affine map, NaN insertion, Series index types), sanitizer replays",
             "Relations between pairs of real executions, each with its own counter; ties that rounding may flip are "
